@@ -103,6 +103,7 @@ def run_selection(ctx, cls, f: FunctionInfo, tags: list, ranks: dict, comps: dic
     it = Interp(ctx.prog, cls, lambda *_: None, call_model, max_depth=5, max_traces=8)
     it.on_start = script.reset
     it.strict_index = True
+    it.instantiate_classes = True     # small helper objects of the repository (an ordering, a record) are followed
     it.heap[("problem", "minimize")] = minimize
     it.sym_result = lambda fv, a: (ranks.get(a[0].tag, UNKNOWN) if fv.tag == "KEY" and a and isinstance(a[0], Sym) else Sym(fv.tag + "()"))
     p = f.params
